@@ -84,7 +84,10 @@ def partition(ctx):
 
 GROUPS = [guard(partition)]
 BOUNDED = [bounded("fa_repro.py", "array_vs_list", "C04.fa.byclass",
-                   "ISV/JFA fit_using_array on a Dask array (3 chunkings, chunks mixing classes) equals the NumPy result in U, V, D (float64, rel. tol. 1e-8)")]
+                   "ISV/JFA fit_using_array on a Dask array (3 chunkings, chunks mixing classes) equals the NumPy result in U, V, D (float64, rel. tol. 1e-8)"),
+           bounded("fa_repro.py", "continued", "C04.fa.continued",
+                   "ISV/JFA: fit, enrol/score, fit again from per-class delayed lists, with shared and with serialised (isolated) tasks, equals the same "
+                   "history on lists in U, V, D (float64, rel. tol. 1e-9): no state is kept on the machine besides U, V, D")]
 SHARED = [("C02", "split_lemma", ["C02.split"]),
           # the per-block functions meet the contracts the partition lemmas are stated over (modular closure)
           ("C02", "estep_post", ["C02.estep.t", "C02.estep.n", "C02.estep.sum_px", "C02.estep.sum_pxx", "C02.estep.log_likelihood", "C02.estep.frame"]),
@@ -94,8 +97,12 @@ SHARED = [("C02", "split_lemma", ["C02.split"]),
           ("C03", "loop_thr_max", ["C03.loop.body[thr=set,max=set]"]), ("C05", "loop_map", ["C05.loop.body[thr=set,max=set]"]),
           ("C06", "loop_thr_max", ["C06.loop.body[thr=set,max=set]"]), ("C06", "lemmas", ["C06.crit", "C06.centroid.mean"]),
           ("C20", "lemmas", ["C20.blocks"]), ("C20", "entry", ["C20.entry"]),
-          ("C14", "dask_same", ["C14.dask"])]
-REPLAY = [("C03.loop.body", "gmm_repro.py", "dask_isolated", {"trainer": "ml"}), ("C05.loop.body", "gmm_repro.py", "dask_isolated", {"trainer": "map"}),
+          ("C14", "dask_same", ["C14.dask"]),
+          # ISV/JFA on the Dask path: per-class E-steps are functions of (U, V, D, UBM, arguments) only (leaf contracts: no hidden
+          # per-machine state), their outputs are reduced exactly once each and the M-step result is copied back (isolated tasks)
+          ("C09", "handover", ["C09.handover"]), ("C09", "reduce_iadd", ["C09.reduce"]),
+          ("C07", "prec_all", ["C07.prec.x", "C07.prec.y", "C07.prec.z", "C07.uprod", "C07.vprod"])]
+REPLAY = [("C04.fa.continued", "fa_repro.py", "continued", {}), ("C07", "fa_repro.py", "continued", {}), ("C09", "fa_repro.py", "dask_classes", {}), ("C03.loop.body", "gmm_repro.py", "dask_isolated", {"trainer": "ml"}), ("C05.loop.body", "gmm_repro.py", "dask_isolated", {"trainer": "map"}),
           ("C04.fa", "fa_repro.py", "array_vs_list", {}), ("C14", "linear_repro.py", "dask", {}), ("C06", "effects_repro.py", "chunking", {}),
           ("C20", "effects_repro.py", "chunking", {}), ("C04", "effects_repro.py", "chunking", {})]
 TRUSTED = ["Dask contract (DESIGN §3): dask.compute(dask.delayed(f)(args)) == f(value-equal args), arguments either shared or fresh copies; tasks run after "
